@@ -88,7 +88,9 @@ func ReadUint8(r Reader, c *uint8) (n int64, err error) {
 
 // ReadUint8Slice reads a slice of byte from r and stores the result into c.
 func ReadUint8Slice(r Reader, c []uint8) (n int64, err error) {
-	nint, err := r.Read(c)
+	// A single Read may return fewer bytes than requested without an error
+	// (short read, end of stream): reads until c is full or the stream fails.
+	nint, err := io.ReadFull(r, c)
 	return int64(nint), err
 }
 
